@@ -237,8 +237,17 @@ static Outcome WriterLeg(RunCtx& ctx, Outcome& out)
 	const int width = static_cast<int>(s.draw(sim::L_CFG, 3));
 	std::u32string text = GenText(s, sim::L_DOC, TextProfile::Any, 700);
 	// 1 run in 8: a long text, so that single writes exceed every internal block size
-	if (s.chance(sim::L_DOC, 1, 8)) { const uint32_t more = 1 + s.draw(sim::L_DOC, 5); for (uint32_t i = 0; i < more; ++i) text += GenText(s, sim::L_DOC, TextProfile::Any, 700); }
-	const uint32_t parts = 1 + s.draw(sim::L_DOC, 8);
+	const bool longText = s.chance(sim::L_DOC, 1, 8);
+	if (longText)
+	{
+		// 1500...6000 characters, dense in 2/3/4-byte characters in half of the cases: 4...20 KiB of UTF-8 in at most 3 writes
+		const uint32_t n = 1500 + s.draw(sim::L_DOC, 4500);
+		const bool dense = s.chance(sim::L_DOC, 1, 2);
+		const uint32_t shift = s.draw(sim::L_DOC, 4);   // a few ASCII characters in front shift every later character against the block size
+		text.assign(shift, U'a');
+		for (uint32_t i = 0; i < n; ++i) text.push_back(dense || s.chance(sim::L_DOC, 1, 4) ? GenCodePoint(s, sim::L_DOC, TextProfile::Any) : static_cast<char32_t>(U'a' + (i % 26)));
+	}
+	const uint32_t parts = longText ? 1 + s.draw(sim::L_DOC, 3) : 1 + s.draw(sim::L_DOC, 8);
 	std::vector<size_t> cuts;
 	for (uint32_t i = 1; i < parts && !text.empty(); ++i) cuts.push_back(s.draw(sim::L_DOC, static_cast<uint32_t>(text.size() + 1)));
 	std::sort(cuts.begin(), cuts.end());
